@@ -61,6 +61,11 @@ def scenario(rng, typ, n, nf, noise=None, gross=None, merr=None, plim=None, slot
     if plim is not None:
         sc.lines.append('cal new_set_pvalue_limit %d %s' % (sc.n, vlib.d2h(plim)))
     sc.solt()
+    if n == 2 and typ in ('UE14', 'E12'):
+        # short-open-load-through determines each column system of a two-port 12-/14-term model exactly: two more standards
+        # make the data over-determined, as the property speaks of
+        sc.add_double_reflect(1, 2, calsim.SHORT, calsim.OPEN)
+        sc.add_double_reflect(1, 2, calsim.OPEN, calsim.SHORT)
     if n == 1:
         # short, open, match determine a one-port exactly: two more known reflects make the data over-determined
         for k in range(2):
@@ -238,6 +243,9 @@ def run(chk):
         if r1 / n1 < 0.9:
             ex = next((v[2] for k, v in stat.items() if k[0] == 'gross' and v[2]), trials[0][5].lines)
             chk.violation('gross', 'a standard off by 100 standard deviations is rejected in only %d of %d solves' % (r1, n1), ex)
+    # 3b. renaming the ports of noisy weighted data renames the calibration
+    if not chk.violations:
+        relabel(chk, exe, rng, 1 if quick else 6)
     # 4. noise vectors on their own (coarser) frequency grid = the same sigma on the calibration grid
     grids(chk, exe, rng, 3 if quick else 40)
     pvalue_correspondence(chk, exe, rng, broken, 200 if quick else 5000)
@@ -246,6 +254,86 @@ def run(chk):
     chk.samples = [[l[:120] for l in trials[0][5].lines[:5]]]
     if broken and not chk.violations:
         chk.violation('obligation', 'proof/correspondence obligations that no longer check:\n' + '\n'.join(broken[:30]), nofail=True)
+
+
+def swap_ports_line(l):
+    """the same 2x2 call with VNA ports 1 and 2 renamed: full 2x2 measurement matrices with rows and columns exchanged, port arguments 3 - p"""
+    t = l.split()
+    if t[:2] == ['cal', 'add']:
+        i = t.index('m')
+        nf, r, c = int(t[i + 1]), int(t[i + 2]), int(t[i + 3])
+        assert (r, c) == (2, 2), l[:80]
+        w = 2 * nf
+        cells_ = [t[i + 4 + k * w:i + 4 + (k + 1) * w] for k in range(4)]
+        args = t[i + 4 + 4 * w:]
+        kind = t[3]
+        npar = {'single_reflect': 1, 'double_reflect': 2, 'through': 0, 'line': 4}.get(kind)
+        if kind == 'mapped':
+            k = args.index('M')
+            args = args[:k + 1] + [str(3 - int(x)) for x in args[k + 1:]]
+        else:
+            args = args[:npar] + [str(3 - int(x)) for x in args[npar:]]
+        return ' '.join(t[:i + 4] + [x for cl in reversed(cells_) for x in cl] + args)
+    if t[:2] == ['cal', 'apply']:
+        i = t.index('m')
+        nf = int(t[i + 1])
+        w = 2 * nf
+        b = i + 2 + nf + 2
+        assert t[b - 2:b] == ['2', '2'], l[:80]
+        cells_ = [t[b + k * w:b + (k + 1) * w] for k in range(4)]
+        assert len(t) == b + 4 * w, l[:80]
+        return ' '.join(t[:b] + [x for cl in reversed(cells_) for x in cl])
+    return l
+
+
+def relabel(chk, exe, rng, reps):
+    """noisy over-determined data with the error model on, and the same data with the two VNA ports renamed: the second calibration
+    is the first with its ports renamed.  (Every equation is weighted by its own measurement, whichever linear system it is in: in
+    the 12-/14-term models renaming the ports exchanges the column systems.)"""
+    for _ in range(reps * 3):
+        # only where renaming is a symmetry of the least-squares problem: one linear system per column, each normalised by its own
+        # term.  (The single-system types fix one term of one port to unity: with noisy data the minimiser depends on which.)
+        for typ in ('UE14', 'E12'):
+            seed = rng.randrange(1 << 30)
+            snf, str_ = 10 ** rng.uniform(-4, -3), 10 ** rng.uniform(-2, -1.3)
+            A = scenario(random.Random(seed), typ, 2, rng.choice([1, 2]), noise=(snf, str_), merr=(None, [snf], [str_]), plim=1e-300)
+            # short-open-load-through determines the column systems exactly; more standards make the weights matter
+            for c1, c2 in rng.sample([(calsim.SHORT, calsim.OPEN), (calsim.OPEN, calsim.SHORT), (calsim.MATCH, calsim.SHORT), (calsim.OPEN, calsim.MATCH),
+                                      (calsim.SHORT, calsim.SHORT), (calsim.OPEN, calsim.OPEN)], rng.randint(2, 4)):
+                A.add_double_reflect(1, 2, c1, c2)
+            A.lines.append('cal new_set_et_tolerance %d %s' % (A.n, vlib.d2h(1e-11)))
+            A.solve().add_calibration(b'c')
+            dut = A.random_dut()
+            A.noise = None
+            A.lines.append(A.apply_line(0, dut))
+            A.lines += ['cal free 0', 'cal live']
+            Bl = [swap_ports_line(l) for l in A.lines]
+            oa, ra, ea = vlib.run_lines(exe, A.lines, timeout=600)
+            ob, rb, eb = vlib.run_lines(exe, Bl, timeout=600)
+            chk.evaluations += 1
+            tag = '%s 2x2, sigma_nf %.1e sigma_tr %.1e' % (typ, snf, str_)
+            if ra != 0 or rb != 0 or len(oa) != len(A.lines) or len(ob) != len(Bl):
+                chk.violation('relabel-crash', '%s: crash / sanitizer report on noisy data (ports as given / renamed):\n%s' % (tag, (ea + eb)[-1200:]), A.lines if ra else Bl)
+                return
+            i_solve = next(i for i, l in enumerate(A.lines) if l.startswith('cal solve'))
+            if oa[i_solve].split()[0] != ob[i_solve].split()[0]:
+                chk.violation('relabel-solve', '%s: the solve answers %s, with the ports renamed %s' % (tag, oa[i_solve][:40], ob[i_solve][:40]), Bl[:i_solve + 1])
+                return
+            if not oa[i_solve].startswith('ok'):
+                chk.count('relabel_unsolved')
+                continue
+            ka, Sa = calsim.parse_apply(oa[-3], 2)
+            kb, Sb = calsim.parse_apply(ob[-3], 2)
+            if not (ka and kb):
+                chk.violation('relabel-apply', '%s: apply fails (%s / %s)' % (tag, oa[-3][:50], ob[-3][:50]), Bl)
+                return
+            d = max(float(np.abs(Sb[f] - Sa[f][::-1, ::-1]).max()) for f in range(len(Sa)))
+            if not d <= 1e-7:
+                chk.violation('relabel', '%s: over-determined noisy data with the error model: renaming the two ports changes the corrected device by %.2e '
+                              '(the weights or the iteration treat the linear systems differently)' % (tag, d), Bl)
+                return
+            chk.count('relabel_same')
+            chk.distinct.add(('relabel', typ, seed))
 
 
 def grids(chk, exe, rng, reps):
